@@ -29,6 +29,18 @@ from Crypto.PublicKey import RSA
 from Crypto.Signature import pkcs1_15
 
 
+class _PrehashedSHA1(object):
+    """A stand-in hash object: ADB tokens are signed as if they were already a SHA-1 digest."""
+    oid = "1.3.14.3.2.26"
+    digest_size = 20
+
+    def __init__(self, digest):
+        self._digest = bytes(digest)
+
+    def digest(self):
+        return self._digest
+
+
 class PycryptodomeAuthSigner(object):
     """AuthSigner using the pycryptodome package.
 
@@ -69,8 +81,7 @@ class PycryptodomeAuthSigner(object):
             The signed ``data``
 
         """
-        h = SHA256.new(data)
-        return pkcs1_15.new(self.rsa_key).sign(h)
+        return pkcs1_15.new(self.rsa_key).sign(_PrehashedSHA1(data))
 
     def GetPublicKey(self):
         """Returns the public key in PEM format without headers or newlines.
